@@ -175,8 +175,7 @@ CHECKS = {
             "Trusted: SqlLex/SqlRead; needle spellings per literal kind; exception classification by class."),
 }
 
-PENDING = ["C01", "C02", "C03", "C04", "C06", "C07", "C08", "C09", "C10", "C11", "C12", "C13", "C14", "C15",
-           "C16", "C17", "C18", "C19", "C20"]
+PENDING = []
 
 
 def main():
